@@ -134,3 +134,13 @@ func zzLoop(kmax int) {
 	}
 	zzvt.Assert(false, "terminates-within-gas-bound")
 }
+
+// ZZ_C01_mem_store / ZZ_C01_mem_load: the memory instructions are part of the machine of C01
+// (final memory, fault exit and address). Their obligations are those of the C05 harnesses
+// (every store/load width at page boundaries against the Gray Paper memory model, a faulting
+// access changes neither memory nor the destination register), run here as part of C01.
+//zz:workers=8
+func ZZ_C01_mem_store() { ZZ_C05_store() }
+
+//zz:workers=8
+func ZZ_C01_mem_load() { ZZ_C05_load() }
